@@ -126,7 +126,7 @@ func (q *Cut) contradicts(b *ssa.BasicBlock, s int) bool {
 	if i == nil {
 		return false
 	}
-	base, neg := stripNot(i.Cond)
+	base, neg := stripNotRaw(i.Cond)
 	want, ok := q.Assume[base]
 	if !ok {
 		return false
@@ -315,15 +315,24 @@ func inlinable(g *ssa.Function) bool {
 		return false
 	}
 	path := g.Pkg.Pkg.Path()
-	if !strings.HasPrefix(path+"/", Mod) || strings.HasSuffix(path, controlsPkg) {
+	if !strings.HasPrefix(path+"/", Mod) {
 		return false
+	}
+	if g.Parent() == nil && strings.HasSuffix(path, controlsPkg) {
+		return false
+	}
+	if g.Parent() != nil {
+		// a closure's ordinal name shifts when another closure is added before it, so the pinned table cannot tell
+		// an old closure from a new one; walking a plainly called closure as if its body stood at the call is what
+		// the call means, whichever it is (go / defer / stored closures are never walked)
+		return true
 	}
 	return !isPinnedFn(fnKey(g))
 }
 
 func hasInlinableCall(f *ssa.Function) bool {
 	found := false
-	allInstrs(f, func(in ssa.Instruction) {
+	allInstrsIn(f, func(in ssa.Instruction) {
 		if call, ok := in.(*ssa.Call); ok && inlinable(call.Call.StaticCallee()) {
 			found = true
 		}
@@ -378,7 +387,7 @@ func condInfoOf(f *ssa.Function) *condInfo {
 		}
 		ci.phis[p] = true
 		for _, e := range p.Edges {
-			eb, _ := stripNot(e)
+			eb, _ := stripNotRaw(e)
 			if q, ok := eb.(*ssa.Phi); ok {
 				addPhi(q)
 			}
@@ -394,7 +403,7 @@ func condInfoOf(f *ssa.Function) *condInfo {
 						k, _ := condCanon(cmp)
 						ci.multi[k] = true
 					}
-					rb, _ := stripNot(r)
+					rb, _ := stripNotRaw(r)
 					if p, ok := rb.(*ssa.Phi); ok {
 						if bt, isB := p.Type().Underlying().(*types.Basic); isB && bt.Kind() == types.Bool {
 							addPhi(p)
@@ -407,7 +416,7 @@ func condInfoOf(f *ssa.Function) *condInfo {
 		if i == nil {
 			continue
 		}
-		base, _ := stripNot(i.Cond)
+		base, _ := stripNotRaw(i.Cond)
 		k, _ := condCanon(base)
 		count[k]++
 		if p, ok := base.(*ssa.Phi); ok {
@@ -431,7 +440,7 @@ func condInfoOf(f *ssa.Function) *condInfo {
 	// operands of tracked phis that are themselves conditions elsewhere
 	for p := range ci.phis {
 		for _, e := range p.Edges {
-			eb, _ := stripNot(e)
+			eb, _ := stripNotRaw(e)
 			k, _ := condCanon(eb)
 			if count[k] >= 1 {
 				ci.multi[k] = true
@@ -501,8 +510,10 @@ func (q *Cut) Run(c *Ctx) (string, int) {
 	if len(q.Fn.Blocks) == 0 {
 		return "", 0
 	}
-	if !inlinable(q.Fn) && !scanBusy {
+	if isScanRoot(q.Fn) && !scanBusy {
+		savedRoot := scanRoot
 		scanRoot = q.Fn
+		defer func() { scanRoot = savedRoot }()
 	}
 	ci := condInfoOf(q.Fn)
 	if len(ci.multi) == 0 && len(ci.phis) == 0 && !hasInlinableCall(q.Fn) {
@@ -554,12 +565,20 @@ func (q *Cut) Run(c *Ctx) (string, int) {
 		if d > 6 {
 			return false, false
 		}
-		base, neg := stripNot(v)
+		base, neg := stripNotRaw(v)
 		if b, ok := constBool(base); ok {
 			return b != neg, true
 		}
 		if t, ok := q.Assume[base]; ok {
 			return t != neg, true
+		}
+		if len(q.Assume) > 0 {
+			// (the assumed value read through a variable's cell, e.g. inside a local predicate)
+			if r := resolveLoad(base); r != base {
+				if t, ok := q.Assume[r]; ok {
+					return t != neg, true
+				}
+			}
 		}
 		if kc, ok := e.known[func() string { k, _ := condCanon(base); return k }()]; ok {
 			return kc.val != neg, true
@@ -579,7 +598,7 @@ func (q *Cut) Run(c *Ctx) (string, int) {
 		return false, false
 	}
 	learn := func(e psEnv, v ssa.Value, t bool) {
-		base, neg := stripNot(v)
+		base, neg := stripNotRaw(v)
 		t = t != neg
 		ci := ciOf(base.Parent())
 		if k, leaves := condCanon(base); ci.multi[k] {
@@ -587,7 +606,7 @@ func (q *Cut) Run(c *Ctx) (string, int) {
 		}
 		if p, ok := base.(*ssa.Phi); ok {
 			if op, ok := e.phiOp[p]; ok && op != ssa.Value(p) {
-				ob, oneg := stripNot(op)
+				ob, oneg := stripNotRaw(op)
 				if _, isC := ob.(*ssa.Const); !isC {
 					if k, leaves := condCanon(ob); ci.multi[k] {
 						e.known[k] = knownCond{t != oneg, leaves}
@@ -644,7 +663,7 @@ func (q *Cut) Run(c *Ctx) (string, int) {
 		if i == nil {
 			return false
 		}
-		base, neg := stripNot(i.Cond)
+		base, neg := stripNotRaw(i.Cond)
 		if bo, isB := base.(*ssa.BinOp); isB && (bo.Op == token.EQL || bo.Op == token.NEQ) {
 			// a comparison of a (non-boolean) phi: evaluate the predicate with the phi standing for its operand
 			var set []*ssa.Phi
@@ -682,7 +701,7 @@ func (q *Cut) Run(c *Ctx) (string, int) {
 		// the operand may itself be (the negation of) a boolean phi that received its operand earlier on the
 		// path: `ok := g != nil && !(a() && b())` is a phi of a negated phi
 		for d := 0; d < 6; d++ {
-			b2, n2 := stripNot(op)
+			b2, n2 := stripNotRaw(op)
 			q, isPhi := b2.(*ssa.Phi)
 			if !isPhi {
 				break
@@ -696,7 +715,7 @@ func (q *Cut) Run(c *Ctx) (string, int) {
 				neg = !neg
 			}
 		}
-		if b2, n2 := stripNot(op); n2 {
+		if b2, n2 := stripNotRaw(op); n2 {
 			op = b2
 			neg = !neg
 		}
@@ -797,15 +816,30 @@ func (q *Cut) Run(c *Ctx) (string, int) {
 	}
 	examined := 0
 	savedArgs := frameArgs
-	defer func() { frameArgs = savedArgs }()
+	savedSites := frameSite
+	defer func() { frameArgs = savedArgs; frameSite = savedSites }()
 	for len(work) > 0 && !overflow {
 		it := work[0]
 		work = work[1:]
 		b := it.l.b
 		curStack = it.stack
+		// (predicates may run searches of their own, on other functions: this search's root again)
+		if isScanRoot(q.Fn) && !scanBusy {
+			scanRoot = q.Fn
+		}
 		// predicates evaluated below see the helper's parameters as the call's arguments
 		frameArgs = savedArgs
+		frameSite = savedSites
 		if it.stack != nil {
+			frameSite = map[*ssa.Function]*ssa.Call{}
+			for k, v := range savedSites {
+				frameSite[k] = v
+			}
+			for fr := it.stack; fr != nil; fr = fr.parent {
+				if g := fr.call.Call.StaticCallee(); g != nil && g.Parent() != nil {
+					frameSite[g] = fr.call
+				}
+			}
 			frameArgs = map[*ssa.Parameter]ssa.Value{}
 			for k, v := range savedArgs {
 				frameArgs[k] = v
@@ -979,7 +1013,7 @@ func (q *Cut) Run(c *Ctx) (string, int) {
 			}
 			ne := it.e
 			if ifi != nil {
-				base, _ := stripNot(ifi.Cond)
+				base, _ := stripNotRaw(ifi.Cond)
 				_, isPhi := base.(*ssa.Phi)
 				if k, _ := condCanon(base); ciOf(b.Parent()).multi[k] || isPhi {
 					ne = it.e.clone()
